@@ -228,9 +228,11 @@ def oracle(prog, lines):
     def stack(k):
         return calls.setdefault(k, [])
 
-    def wake_check():
-        """the loop sits in poll: it must be woken, or about to be, whenever there is work or a quit request"""
-        if phase != "inpoll" or pipe or ev > 0:
+    def wake_check(asleep=False):
+        """the loop sits in poll: it must be woken, or about to be, whenever there is work or a quit request
+        (asleep: the scheduler reports the loop blocked in poll, so the descriptor is not readable whatever the
+        log says about eventfd writes)"""
+        if phase != "inpoll" or ((pipe or ev > 0) and not asleep):
             return
         pending = len(appended) - taken
         if pending > 0:
@@ -427,7 +429,7 @@ def oracle(prog, lines):
         return fails
     if states.get(L) == "poll":
         # everybody else is finished: the loop may sleep only when nothing is asked of it
-        wake_check()
+        wake_check(asleep=True)
         if not fails and pipe:
             fail("lost-io", "the loop sleeps in poll with %d unread byte(s) in the pipe" % len(pipe))
     return fails
@@ -771,6 +773,9 @@ class Runner:
         self.kinds = set(kinds) | BOTH_KINDS
         self.pool = ThreadPoolExecutor(max_workers=8)
         self.env = None
+        # search mode (an obligation or a tie broke): a disagreement between model and implementation is expected then
+        # and must not end the search for an input on which the implementation itself violates the property
+        self.deferred = []
 
     def close(self):
         self.pool.shutdown(wait=True)
@@ -835,7 +840,20 @@ class Runner:
             elif r.fails:
                 ctx.count("other-property:" + r.fails[0][0])
             elif r.mismatch:
-                self._report_mismatch(exe, prog, origin + ":" + tag)
+                if ctx.search_mode:
+                    if len(self.deferred) < 2:
+                        self.deferred.append((exe, prog, origin + ":" + tag, self.env))
+                    ctx.count("model-differs-while-searching")
+                else:
+                    self._report_mismatch(exe, prog, origin + ":" + tag)
+
+    def flush_deferred(self):
+        if self.ctx.oracle_failures:
+            return
+        for exe, prog, origin, env in self.deferred:
+            self.env = env
+            self._report_mismatch(exe, prog, origin)
+        self.env = None
 
     def corpus(self, exe, prop_ids):
         for pid in prop_ids:
@@ -864,9 +882,12 @@ class Runner:
             if f:
                 found.append(("oracle", q, f[0][0]))
                 return True
-            if new and ctx.model_ok:
+            if new and ctx.model_ok and not (ctx.search_mode and self.deferred):
                 mm = compare(impl, run_model(q, order))
                 if mm:
+                    if ctx.search_mode:
+                        self.deferred.append((exe, q, tag, self.env))
+                        return False
                     found.append(("mismatch", q, mm))
                     return True
             if new:
@@ -896,7 +917,7 @@ def exhaustive_programs(which):
         return p
     if which == "C04":
         # two submitters x two tasks against a loop that has work queued before loop()
-        out.append(("2x2-submitters", prog("plain", {1: [], 2: [], 3: [], 4: [], 5: []}, ["q5"], {1: ["q1", "q2"], 2: ["q3", "q4"]}), 3))
+        out.append(("2x2-submitters", prog("plain", {1: [], 2: [], 3: [], 4: [], 5: []}, ["q5"], {1: ["q1", "q2"], 2: ["q3", "q4"]}), 2))
         # foreign runInLoop + a functor that queues from inside the drain + an I/O handler that queues
         out.append(("nested-io", prog("plain", {1: ["q3"], 2: ["q4"], 3: [], 4: []}, ["q1"], {1: ["r3", "p2"]}), 2))
         # submission racing with quit: the final drain
@@ -945,7 +966,7 @@ def correspondence(prop, ctx, replay_file, which):
         if ctx.stop():
             return None
         # 3. random programs and schedules
-        n = 700 if quick else 24000
+        n = 700 if quick else 30000
         done = 0
         while done < n and not ctx.stop():
             items = []
@@ -991,7 +1012,8 @@ def correspondence(prop, ctx, replay_file, which):
         # 5. every schedule of a few small programs within a preemption bound
         if not quick:
             for name, p, bound in exhaustive_programs(which):
-                rn.exhaustive(exe, p, bound, 30000, "exhaustive:" + name)
+                # spurious wake-ups make the tree infinite (wake, re-test, wait again): a fixed number of runs there
+                rn.exhaustive(exe, p, bound, 4000 if p.spurious else 40000, "exhaustive:" + name)
                 if ctx.stop():
                     return None
         else:
@@ -1000,6 +1022,7 @@ def correspondence(prop, ctx, replay_file, which):
                 if ctx.stop():
                     return None
     finally:
+        rn.flush_deferred()
         rn.close()
     return None
 
